@@ -165,10 +165,23 @@ Fixpoint lex_seg (fuel : nat) (s : chars) : lexres :=
     end
   end.
 
+(* two adjacent stars inside a longer segment ("a**", "q**b") are outside the grammar:
+   git strips a literal prefix of the pattern before calling wildmatch, after which
+   such stars can become a leading double star ("a**/x" then matches "ab/c/x") *)
+Fixpoint has_2stars (s : chars) : bool :=
+  match s with
+  | c :: t => match t with
+              | d :: _ => (is_star c && is_star d) || has_2stars t
+              | [] => false
+              end
+  | [] => false
+  end.
+
 Inductive segres := SOk (s : seg) | SEscSlash (s : seg) | SUnsup.
 Definition read_seg (s : chars) : segres :=
   if forallb is_star s && (Nat.leb (2) (length s)) then
     match length s with 2 => SOk SDStar | _ => SUnsup end
+  else if has_2stars s then SUnsup
   else match lex_seg (S (length s)) s with
        | LOk g => SOk (SGlob g)
        | LDangling g => SEscSlash (SGlob g)
